@@ -73,6 +73,54 @@ def extra(ctx, res):
             else:
                 out.append((tuple(e.document_path)[strip:], e.code))
         return sorted(out, key=repr)
+    def without(x, names):
+        if isinstance(x, dict):
+            return {k: without(v, names) for k, v in x.items() if k not in names}
+        if isinstance(x, list):
+            return [without(v, names) for v in x]
+        return x
+
+    def compose(schema, cfg, doc, upd):
+        """-> list of (field, discrepancy) for the dict sub-documents of the top level"""
+        out = []
+        try:
+            v = _pool.PoolValidator(_copy.deepcopy(schema), **_copy.deepcopy(cfg))
+            v.validate(_copy.deepcopy(doc), update=upd)
+        except Exception:
+            return None
+        for f, rules in schema.items():
+            if not (isinstance(rules, dict) and rules.get('type') == 'dict' and isinstance(rules.get('schema'), dict)
+                    and isinstance(doc.get(f), dict) and all(isinstance(x, dict) for x in rules['schema'].values())):
+                continue
+            if any(k in rules for k in ('coerce', 'default', 'default_setter', 'readonly', 'dependencies', 'keysrules', 'valuesrules',
+                                        'allof', 'anyof', 'noneof', 'oneof', 'check_with', 'excludes')):
+                continue
+            if not isinstance(rules.get('allow_unknown', False), bool) or oracles.has_caret(rules['schema']):
+                continue
+            if not isinstance(v.document.get(f), dict):
+                continue
+            c2 = {k: x for k, x in cfg.items() if k in ('ignore_none_values', 'purge_readonly')}
+            c2['allow_unknown'] = rules.get('allow_unknown', cfg.get('allow_unknown', False))
+            c2['purge_unknown'] = rules.get('purge_unknown', cfg.get('purge_unknown', False))
+            c2['require_all'] = rules.get('require_all', cfg.get('require_all', False))
+            try:
+                alone = _pool.PoolValidator(_copy.deepcopy(rules['schema']), **c2)
+                alone.validate(_copy.deepcopy(doc[f]), update=upd)
+            except Exception:
+                continue
+            # the field's own rules may stop before `schema` (type, empty ...): only compare when the schema rule ran or nothing failed at f itself
+            own = [e for e in v._errors if tuple(e.document_path) == (f,) and e.code != 0x81]
+            if own:
+                continue
+            a = leaves([e for e in v._errors if tuple(e.document_path)[:1] == (f,)], 1)
+            b = leaves(alone._errors, 0)
+            d = None
+            if v.document.get(f) != alone.document:
+                d = "processed sub-document under %r: nested %r, on its own %r" % (f, v.document.get(f), alone.document)
+            elif a != b:
+                d = "errors beneath %r with normalization on: nested %r != on its own %r" % (f, a[:3], b[:3])
+            out.append((f, d))
+        return out
     for i in range(nn):
         sub_schema = g2.schema()
         wrapper = {'type': 'dict', 'schema': sub_schema}
@@ -88,46 +136,21 @@ def extra(ctx, res):
             sub_doc['zz_unknown'] = rng.choice([1, 'x', None])
         doc = {'f': sub_doc, 'g': 1}
         upd = rng.random() < 0.3
-        try:
-            v = _pool.PoolValidator(_copy.deepcopy(schema), **_copy.deepcopy(cfg))
-            v.validate(_copy.deepcopy(doc), update=upd)
-        except Exception:
-            continue
-        for f, rules in schema.items():
-            if not (isinstance(rules, dict) and rules.get('type') == 'dict' and isinstance(rules.get('schema'), dict)
-                    and isinstance(doc.get(f), dict) and all(isinstance(x, dict) for x in rules['schema'].values())):
-                continue
-            if any(k in rules for k in ('coerce', 'default', 'default_setter', 'readonly', 'dependencies', 'keysrules', 'valuesrules',
-                                        'allof', 'anyof', 'noneof', 'oneof', 'check_with', 'excludes')):
-                continue
-            if not isinstance(rules.get('allow_unknown', False), bool) or oracles.has_caret(rules['schema']) or oracles.mentions(rules['schema'], ('readonly',)):
-                continue
-            if not isinstance(v.document.get(f), dict):
-                continue
-            c2 = {k: x for k, x in cfg.items() if k in ('ignore_none_values', 'purge_readonly')}
-            c2['allow_unknown'] = rules.get('allow_unknown', cfg.get('allow_unknown', False))
-            c2['purge_unknown'] = rules.get('purge_unknown', cfg.get('purge_unknown', False))
-            c2['require_all'] = rules.get('require_all', cfg.get('require_all', False))
-            try:
-                alone = _pool.PoolValidator(_copy.deepcopy(rules['schema']), **c2)
-                alone.validate(_copy.deepcopy(doc[f]), update=upd)
-            except Exception:
-                continue
+        res_c = compose(schema, cfg, doc, upd)
+        for f, d in (res_c or []):
             res["cases"] += 1
             res["nontrivial"] += 1
-            # the field's own rules may stop before `schema` (type, empty ...): only compare when the schema rule ran or nothing failed at f itself
-            own = [e for e in v._errors if tuple(e.document_path) == (f,) and e.code != 0x81]
-            if own:
-                continue
-            a = leaves([e for e in v._errors if tuple(e.document_path)[:1] == (f,)], 1)
-            b = leaves(alone._errors, 0)
-            d = None
-            if v.document.get(f) != alone.document:
-                d = "processed sub-document under %r: nested %r, on its own %r" % (f, v.document.get(f), alone.document)
-            elif a != b:
-                d = "errors beneath %r with normalization on: nested %r != on its own %r" % (f, a[:3], b[:3])
             if d:
-                res["violations"].append({"signature": "standalone-normalized:" + d.split(" ")[0], "what": d,
+                sig = "standalone-normalized:" + d.split(" ")[0]
+                if oracles.mentions(schema[f]['schema'], ('readonly',)):
+                    # attribution to the recorded finding (a read-only violation stops the field's remaining rules at the root of a
+                    # normalized document but not in a child validator): the same case with the readonly rules taken out
+                    s2 = _copy.deepcopy(schema)
+                    s2[f]['schema'] = without(s2[f]['schema'], ('readonly',))
+                    r2 = compose(s2, cfg, doc, upd)
+                    if r2 is not None and all(dd is None for ff, dd in r2 if ff == f):
+                        sig = "standalone-normalized:readonly-in-child"
+                res["violations"].append({"signature": sig, "what": d,
                                           "replay": {"schema": common.jval(schema), "document": common.jval(doc), "config": common.jval(cfg), "update": upd}})
     # directed family: a sub-document key named 'dependencies' below a field that has a `dependencies` rule followed by
     # another rule (the rule's closing look-up reads the DOCUMENT error tree with a SCHEMA path)
